@@ -49,6 +49,17 @@ CLAIMED["C19"] = dict(
    technique="symbolic execution of the PEG parser and error formatter on symbolic bytes + SMT",
    ref="DESIGN.md §5 C19")
 
+CLAIMED["C08"] = dict(
+   text="Bounded model checking over symbolic source text: every accepted input of n bytes (3 quick / 4 thorough) over a punctuation-rich alphabet, plus 35 programs composing every control construct, is compiled by the real parser; the emitted bytecode and every nested function / computed body is then explored along ALL control-flow paths (both outcomes of every conditional jump) by an abstract stack-height machine that checks operand types (unpatched jumps), jump targets, stack underflow, equal numbers of open blocks at every arrival, and that annotation / dice state is set up before use.",
+   note="The oracle is a bytecode verifier written from the VM's dispatch loop (stack effect per opcode); the real dispatch loop itself is exercised by the C01 harnesses. Inputs longer than n bytes outside the corpus are not covered. Known findings recorded: je.dup left unpatched after an abandoned '||' alternative; continue/break inside if leak a block slot.",
+   technique="symbolic execution of the PEG parser on symbolic bytes + abstract interpretation of the emitted bytecode",
+   ref="DESIGN.md §5 C08")
+CLAIMED["C13"] = dict(
+   text="Bounded model checking over symbolic text: texts of n code points (3 quick / 4 thorough) over an alphabet of all four delimiters, backslash, braces, percent, control characters and multi-byte runes are escaped by the documented rules and run through the real parser and VM in the four quote styles; 'the literal evaluates to exactly the text' is a byte-wise SMT verification condition. Templates with two holes (8 kinds of embedded code) and symbolic literal segments: value is the in-order concatenation, embedded assignments take effect, one value is left on the stack; nesting depth 1..21.",
+   note="The template delimiter itself cannot be written inside its own template style (no escape exists) and is excluded there. An if-block hole contributes no text (pinned by the test suite).",
+   technique="symbolic execution of parser + VM on symbolic bytes + SMT string equality",
+   ref="DESIGN.md §5 C13")
+
 NA = {
 }
 
